@@ -3,8 +3,10 @@ EXTENDS Codec
 AllAttrSets == SUBSET {"type", "id", "from", "to", "lang"}
 SomeAttrSets == {{}, {"id"}, {"type", "id", "from", "to", "lang"}, {"from", "to"}, {"lang"}, {"type"}}
 FewAttrSets == {{"id"}, {"type", "id", "from", "to", "lang"}}
-MsgExtsAll == {"oob", "rreq", "rrcv", "markable", "mrcv", "mdisp", "mack", "active", "composing", "gone", "inactive", "paused", "nps", "nostore", "nocopy", "store"}
-MsgExtsSome == {"oob", "rreq", "rrcv", "mrcv", "active", "nostore"}
+MsgExtsAll == {"oob", "rreq", "rrcv", "markable", "mrcv", "mdisp", "mack", "active", "composing", "gone", "inactive", "paused", "nps", "nostore", "nocopy", "store",
+               "xbody", "xsubject", "xthread", "xerror"}
+MsgExtsSome == {"oob", "rreq", "rrcv", "mrcv", "active", "nostore", "xbody", "xerror"}
+PresExtsAll == {"muc", "xshow", "xstatus", "xpriority", "xperror"}
 IQPl == {"version", "discoinfo", "discoitems", "bind", "roster", "node"}
 TCAll == {"plain", "lt", "gt", "amp", "quot", "cdata", "lead", "trail", "nonasc", "mixed", "ws", "ctrl", "dense"}
 NoneSet == {}
